@@ -311,7 +311,7 @@ fn extract_source_map<R: Read>(
                 last_comment_key = Some(*trailing.key());
                 source_map_comment = Some(String::from(comment.text.as_str()));
                 let url = trim_comment.get(SOURCE_MAP_URL.len()..).unwrap();
-                source = decode_data_url(url)
+                source = decode_data_url(&normalize_data_url(url))
                     .map_err(Error::new)
                     .or_else(|_| {
                         let source_path = PathBuf::from(url);
@@ -347,6 +347,22 @@ fn extract_source_map<R: Read>(
         source,
         source_map_comment,
     }
+}
+
+// `data:application/json;charset=utf-8;base64,...` (the form emitted by most bundlers) is the same as
+// `data:application/json;base64,...`, the only form understood by decode_data_url
+fn normalize_data_url(url: &str) -> Cow<str> {
+    const JSON_DATA_URL: &str = "data:application/json;";
+    const BASE64: &str = "base64,";
+    if let Some(rest) = url.strip_prefix(JSON_DATA_URL) {
+        if let Some(index) = rest.find(BASE64) {
+            let params = &rest[..index];
+            if params.to_lowercase().starts_with("charset=") && !params.contains(',') {
+                return format!("{JSON_DATA_URL}{}", &rest[index..]).into();
+            }
+        }
+    }
+    url.into()
 }
 
 pub fn generate_prefix_stmts(csi_methods: &CsiMethods) -> Vec<Stmt> {
